@@ -64,6 +64,8 @@ void OfflinePacketFilter::init(const string& pcap_filter,
     if (!handle_) {
         throw pcap_open_failed();
     }
+    // pcap_compile leaves the program untouched when it fails
+    memset(&filter_, 0, sizeof(filter_));
     if (pcap_compile(handle_, &filter_, pcap_filter.c_str(), 1, 0xffffffff) == -1) {
         string error(pcap_geterr(handle_));
         pcap_freecode(&filter_);
